@@ -21,3 +21,45 @@ def token_eval(models, rdm, method='corr', theta=None):
         time.sleep(delay)
     vec = [float(x) for x in rdm.dissimilarities[0]]
     return [vox, vec, time.monotonic_ns()]
+
+
+# ---- round 6: what reaches the evaluation function, and a cheap flexible evaluation ----------
+
+DEFAULT = '__default__'     # sentinel: the keyword was NOT forwarded (the signature's default applied)
+
+
+def _jsonable(o):
+    import numpy as np
+    if isinstance(o, np.ndarray):
+        return o.tolist()
+    if isinstance(o, np.integer):
+        return int(o)
+    if isinstance(o, np.floating):
+        return float(o)
+    raise TypeError(type(o).__name__)
+
+
+def spy_eval(models, rdm, method=DEFAULT, theta=DEFAULT):
+    """reports the keywords it was called with: [voxel_index, method, theta] (theta as JSON text)"""
+    import json
+    vox = int(rdm.rdm_descriptors['voxel_index'][0])
+    return [vox, method if isinstance(method, str) else repr(method),
+            theta if isinstance(theta, str) else json.dumps(theta, default=_jsonable)]
+
+
+def flex_eval(models, rdm, method='cosine', theta=None):
+    """a cheap *flexible* evaluation with the signature of an rsatoolbox evaluation function: a model
+    whose parameter is not given (`theta is None` or `theta[k] is None`) is fitted to the very RDM it
+    is evaluated on by a DETERMINISTIC fitter (`fit_regress` for weighted, `fit_select` for selection
+    models; the default `fit_optimize` starts from a random point), then everything is evaluated by
+    `eval_fixed`"""
+    from rsatoolbox.inference import eval_fixed
+    from rsatoolbox.model import Model, ModelSelect
+    from rsatoolbox.model.fitter import fit_regress, fit_select
+
+    def fit(m):
+        return (fit_select if isinstance(m, ModelSelect) else fit_regress)(m, rdm, method=method)
+    ms = [models] if isinstance(models, Model) else list(models)
+    th = list(theta) if theta is not None else [None] * len(ms)
+    th = [fit(m) if (t is None and m.n_param > 0) else t for m, t in zip(ms, th)]
+    return eval_fixed(ms, rdm, theta=th, method=method)
